@@ -112,6 +112,8 @@ def judge_stream(data, opts, pipe=False):
     ts = S.pipe_stream(data) if pipe else S.TrackingStream(data)
     errs = []
     handler = S.handler_returning(len(data), errs) if (opts.get("quitonerror") == 1 and opts.get("handler", True)) else None
+    if handler is not None and len(data) % 6 == 5:
+        handler = S.ReentrantHandler()  # the handler reads on from the same reader
     core.log_off()
     try:
         try:
